@@ -58,11 +58,13 @@ struct ThickStats {
     nontrivial: bool,
 }
 
-fn check_thick(l: &Line, w: u32, thin: &[Point]) -> Result<ThickStats, Fail> {
+/// `align`: the stroke alignment of the style (documented to be ignored for open shapes such as lines).
+fn check_thick(l: &Line, w: u32, thin: &[Point], align: StrokeAlignment) -> Result<ThickStats, Fail> {
     let (s, e) = (l.start, l.end);
     let (dx, dy) = ((e.x - s.x) as f64, (e.y - s.y) as f64);
     let len = (dx * dx + dy * dy).sqrt();
-    let style = PrimitiveStyle::with_stroke(Rgb888::nth(2), w);
+    let mut style = PrimitiveStyle::with_stroke(Rgb888::nth(2), w);
+    style.stroke_alignment = align;
     let budget = (len as usize + 3) * (w as usize + 6) * 3 + 64;
     let mut px: Vec<Point> = vec![];
     for Pixel(p, _) in l.into_styled(style).pixels() {
@@ -126,7 +128,8 @@ fn grid(ex: &Ex) {
                 Ok(thin) => {
                     for w in 1..=10u32 {
                         n += 1;
-                        match check_thick(&l, w, &thin) {
+                        // (the alignment, which lines ignore, rotates with the width and the start point)
+                        match check_thick(&l, w, &thin, [StrokeAlignment::Center, StrokeAlignment::Inside, StrokeAlignment::Outside][(w as usize + si) % 3]) {
                             Ok(st) => nt += u64::from(st.nontrivial),
                             Err(f) => ex.fail(idx + w as u64, f.sig, f.detail, format!("{:?} width {}", l, w)),
                         }
@@ -162,12 +165,19 @@ fn random(d: &mut Dec, cx: &mut Cx) -> Res {
     let w = if d.ratio(1, 6) { d.u(25, 40) } else { d.u(1, 24) };
     let far = gen::far_offset(d);
     let l = Line::new(s + far, e + far);
-    cx.describe(|| format!("{:?} width {}", l, w));
+    // auxiliary word 5: half of the lines are styled with Inside or Outside alignment, which the
+    // documentation says is ignored for open shapes: every clause must hold unchanged
+    let align = [StrokeAlignment::Center, StrokeAlignment::Center, StrokeAlignment::Inside, StrokeAlignment::Outside][d.aux_u(5, 0, 3) as usize];
+    cx.describe(|| format!("{:?} width {} ({:?})", l, w, align));
     cx.class(if w > 24 { "wide(>24)" } else if w == 1 { "width1" } else { "width2..24" });
     let thin = check_thin(&l)?;
-    let st = check_thick(&l, w, &thin)?;
+    let st = check_thick(&l, w, &thin, align)?;
     cx.nontrivial(st.nontrivial);
-    let _ = gen::point;
+    if thin.len() <= 2_000 {
+        gen::iterator_protocol(&|| l.points(), d, "thin:points")?;
+        let style = PrimitiveStyle::with_stroke(Rgb888::nth(2), w);
+        gen::iterator_protocol(&|| l.into_styled(style).pixels(), d, "thick:pixels")?;
+    }
     Ok(())
 }
 
@@ -199,8 +209,9 @@ fn very_long(d: &mut Dec, cx: &mut Cx) -> Res {
     let l = if d.bool() { Line::new(s, e) } else { Line::new(e, s) };
     cx.describe(|| format!("{:?} width {}", l, w));
     cx.class(if major >= 16384 { "delta>=16384" } else if major >= 4096 { "delta>=4096" } else { "delta>=1025" });
+    let align = [StrokeAlignment::Center, StrokeAlignment::Center, StrokeAlignment::Inside, StrokeAlignment::Outside][d.aux_u(5, 0, 3) as usize];
     let thin = check_thin(&l)?;
-    let st = check_thick(&l, w, &thin)?;
+    let st = check_thick(&l, w, &thin, align)?;
     cx.nontrivial(st.nontrivial || w == 1);
     Ok(())
 }
